@@ -240,3 +240,26 @@ CLAIMS["C13"] = {
     "note": "Trusted: symgo, z3 nlsat.",
 }
 H("C13", "html/layout", "VxH_C13_columns", mode="real", reach=["laid-out"], bounds="table width in [50,300], cell widths in [0,200], heights in [5,40], spacing in [0,10] (symbolic); fixed/auto layout; ltr/rtl", quick={"maxsteps": 80000000, "time": "500s"})
+
+# ---- C14 backend protocol (links, outline) ----
+ASSUMPTIONS["C14"] = [
+    "only link/anchor resolution and the bookmark outline are covered, on hand-built Page values with symbolic bookmark levels and symbolic anchor / link names; the drawing-call protocol inside a page (paths before paints, fonts before text, finiteness of every number) is not encoded",
+]
+CLAIMS["C14"] = {
+    "text": "For <=4 (thorough 5) bookmarks of symbolic levels 1..6 split over two pages the solver shows makeBookmarkTree builds exactly the outline defined by the levels; for two pages with up to two anchors and two links each, with symbolic names, resolveLinks defines each anchor once on the first page that has it, drops dangling internal links and keeps the others.",
+    "design_ref": "DESIGN.md section 4 C14",
+    "note": "Trusted: symgo, z3.",
+}
+H("C14", "html/document", "VxH_C14_outline", reach=["built"], bounds="1..4 (thorough 5) bookmarks, levels symbolic in 1..6, split over two pages")
+H("C14", "html/document", "VxH_C14_links", reach=["resolved"], bounds="2 pages x up to 2 anchors and 2 links, names symbolic in {a,b,c}, link type internal/external", quick={"shards": 6})
+
+# ---- C15 determinism (map order, shared state) ----
+ASSUMPTIONS["C15"] = [
+    "Go map iteration order is a symbolic choice (every permutation of the keys of each ranged map is explored); only the map-iteration sites reachable without text layout are covered (anchor lists); goroutine interleavings, data races and process-to-process comparison are outside this technique (no encoding of Go's memory model)",
+]
+CLAIMS["C15"] = {
+    "text": "With map iteration order turned into a solver-chosen permutation, two runs of resolveLinks on the same document (1..3 anchors on the first page, 2 on the second) are shown to hand identical anchor lists to the backend.",
+    "design_ref": "DESIGN.md section 4 C15",
+    "note": "Trusted: symgo's model of map iteration (any permutation), z3. Native confirmation of a counterexample repeats the run 40 times, relying on Go's randomised range order.",
+}
+H("C15", "html/document", "VxH_C15_anchor_order", reach=["compared"], bounds="page 1 with 1..3 anchors, page 2 with 2 anchors (one duplicate name); every permutation of every ranged map")
